@@ -765,6 +765,7 @@ def run_entry(case, ctx):
             r = close_forms(out, out0, abs_tol=e.get('form_tol', 0.0))
             ctx.check(r is None, f'forms_disagree:{name}', lambda: f'{name}: form {form} vs {base}: {r}')
     check_single(ctx, name, case['sub'], form, out)
+    check_inplace_reuse(ctx, name, case['sub'], form)
     ctx.mark_nontrivial(any(isinstance(a, (np.ndarray, pd.DataFrame, pd.Series)) for a in args))
 
 
@@ -797,6 +798,73 @@ def check_single(ctx, name, sub, form, out_stacked):
     ctx.label('single_vs_stacked_checked')
 
 
+def _transfer(dst, src):
+    """Make the object dst hold the values of src IN PLACE (same identity). False when that is impossible."""
+    if isinstance(dst, np.ndarray):
+        if not (isinstance(src, np.ndarray) and dst.shape == src.shape and dst.dtype == src.dtype and dst.flags.writeable):
+            return False
+        np.copyto(dst, src)
+        return True
+    if isinstance(dst, pd.DataFrame):
+        if not (isinstance(src, pd.DataFrame) and dst.shape == src.shape and list(dst.columns) == list(src.columns)
+                and list(dst.dtypes) == list(src.dtypes) and all(k == 'f' for k in (d.kind for d in dst.dtypes))):
+            return False
+        dst.iloc[:, :] = src.values
+        dst.index = src.index.copy()
+        return True
+    if isinstance(dst, pd.Series):
+        if not (isinstance(src, pd.Series) and dst.shape == src.shape and list(dst.index) == list(src.index) and dst.dtype == src.dtype
+                and dst.dtype.kind == 'f'):
+            return False
+        dst.iloc[:] = src.values
+        dst.name = src.name
+        return True
+    if isinstance(dst, list):
+        if not (isinstance(src, list) and len(dst) == len(src)):
+            return False
+        dst[:] = src
+        return True
+    if isinstance(dst, (int, float, str, bool, type(None), np.generic, tuple)):
+        return 'replace'          # immutable: the caller simply passes the new value
+    return snap(dst) == snap(src)
+
+
+def check_inplace_reuse(ctx, name, sub, form):
+    """A caller that keeps its buffers and overwrites them in place before the next call (preallocated matrices, a table
+    updated in a loop) must get the answer for the NEW values: no result may be remembered by argument identity."""
+    e = get_registry()[name]
+    if e['kind'] == 'filter':
+        return
+    fn, args, kw = e['build'](np.random.RandomState(sub), form)
+    for step in range(1, 9):          # builders may draw their sizes: look for a second argument set of the same shapes
+        fn2, args2, kw2 = e['build'](np.random.RandomState(sub + step), form)
+        if len(args) != len(args2) or sorted(kw) != sorted(kw2):
+            continue
+        probe_a, probe_k = e['build'](np.random.RandomState(sub), form)[1:]
+        how = [_transfer(a, b) for a, b in zip(probe_a, args2)]
+        howk = {k: _transfer(probe_k[k], kw2[k]) for k in kw}
+        if all(how) and all(howk.values()) and any(h is True for h in how + list(howk.values())):
+            break
+    else:
+        ctx.label('inplace_reuse_not_applicable')
+        return
+    # order matters for a remembered result: the reference call comes first, then the call that could be remembered, then the
+    # same objects with new contents
+    fresh = ctx.sut(fn2, *args2, **kw2)
+    ctx.sut(fn, *args, **kw)
+    for a, b in zip(args, args2):
+        _transfer(a, b)
+    for k in kw:
+        _transfer(kw[k], kw2[k])
+    args = [b if h == 'replace' else a for a, b, h in zip(args, args2, how)]
+    kw = {k: (kw2[k] if howk[k] == 'replace' else kw[k]) for k in kw}
+    again = ctx.sut(fn2, *args, **kw)
+    r = out_equal(again, fresh)
+    ctx.check(r is None, f'stale_result_after_inplace_change:{name}',
+              lambda: f'{name}: arguments overwritten in place between two calls: the second result differs from a call with fresh, equal arguments ({r})')
+    ctx.label('inplace_reuse_checked')
+
+
 def sweep_strategy():
     return st.fixed_dictionaries({'sub': st.integers(0, 2 ** 31 - 1), 'form': st.integers(0, 11)})
 
@@ -808,6 +876,7 @@ def run_sweep(case, ctx):
         form = forms[case['form'] % len(forms)]
         out, _ = execute(ctx, name, case['sub'], form)
         check_single(ctx, name, case['sub'], form, out)
+        check_inplace_reuse(ctx, name, case['sub'], form)
     ctx.label(f'entries={len(names())}')
     ctx.mark_nontrivial(True)
 
